@@ -8,7 +8,7 @@ class CommaOperator(Operator):
 
     def solve_operand(self, left: Any, right: Any) -> Any:
         if isinstance(left, list):
-            left.append(right)
-            return left
+            # a new list: the left operand may be the value of a variable
+            return [*left, right]
 
         return [left, right]
